@@ -234,13 +234,6 @@ pub proof fn lemma_merged_union(m: Seq<Rec>, l: Seq<Rec>, r: Seq<Rec>)
     }
 }
 
-/// the row vector of a concatenation
-pub proof fn lemma_rv_concat(a: Seq<EventRecord>, b: Seq<EventRecord>)
-    ensures rv(a + b) == rv(a) + rv(b),
-{
-    assert(rv(a + b) =~= rv(a) + rv(b));
-}
-
 // ---- positions in a log -------------------------------------------------------
 /// `k` is the LAST position of commit `c` in `s` — what a reverse scan of the log
 /// (`rewind`, `diff_records`: `iter(true)` / `record_stream(true)`) stops at
